@@ -72,7 +72,13 @@ def stepOpt (ts : List String) : Option String :=
     | .error e => pure s!"model-failure {e}"
     | .ok r =>
       let out := if stable then r.out else canon cmp.fn r.out
-      pure s!"out {showElems out} ret {r.ret} begins {showIntCsv r.begins} win {showWindows r}"
+      -- run-time validation of the model against the specification it is proved about
+      -- (Props/C07.lean: first `size` elements of the stable k-merge; stable variants: begins = their counts)
+      let spec := kMergeTake cmp.fn seqs size
+      let specOut := if stable then spec else canon cmp.fn spec
+      let counts : List Int := (List.range seqs.length).map fun i => ((spec.filter (fun e => e.seq == i)).length : Int)
+      let okSpec := out == specOut && r.ret == (size : Int) && ((!r.parallel && !stable) || r.begins == counts)
+      pure s!"out {showElems out} ret {r.ret} begins {showIntCsv r.begins} win {showWindows r} spec {if okSpec then 1 else 0}"
   | _ => none
 
 def step (_ : Unit) (ts : List String) : Unit × String :=
